@@ -1,6 +1,6 @@
 /-
   prove.go: the cached-proof maintenance code — `getNewPositions`, `maybeRemap`,
-  `updateProofRemove`, `updateProofAdd`, `Proof.Update`, `pruneEdges`, `undoAdd`, `undoDel`,
+  `updateProofRemove`, `updateProofAdd`, `Proof.Update`, `pruneEdges`, `proofUndoAdd`, `proofUndoDel`,
   `Proof.Undo` — transliterated (properties C07 / C08).
 
   This is a model of the code AS IT IS, including the two recorded defects of `Proof.Undo`
@@ -222,8 +222,8 @@ def deleteSkipping {α} (cond : α → Bool) : Nat → Nat → List α → List 
     | none => l
     | some x => if cond x then deleteSkipping cond fuel (i+1) (l.eraseIdx i) else deleteSkipping cond fuel (i+1) l
 
-/-- `(p *Proof) undoAdd(numAdds, numLeaves, cachedHashes, toDestroy)` -/
-def undoAdd (p : CProof H) (numAdds numLeaves : U64) (cachedHashes : List H) (toDestroy : List U64) :
+/-- `(p *Proof) proofUndoAdd(numAdds, numLeaves, cachedHashes, toDestroy)` -/
+def proofUndoAdd (p : CProof H) (numAdds numLeaves : U64) (cachedHashes : List H) (toDestroy : List U64) :
     Out (CProof H × List H) := do
   let targetsWithHash ← toHashAndPos p.targets cachedHashes
   let proofPos := (ProofPositions targetsWithHash.positions numLeaves (TreeRows numLeaves)).1
@@ -269,7 +269,7 @@ def undoAdd (p : CProof H) (numAdds numLeaves : U64) (cachedHashes : List H) (to
   let proofWithPos := subsetHP proofWithPos neededProofPos
   pure ({ targets := targetsWithHash.positions, proof := proofWithPos.hashes }, targetsWithHash.hashes)
 
-/-- the `for i, target := range targetsWithHashes.positions` loop of `undoDel` for one block
+/-- the `for i, target := range targetsWithHashes.positions` loop of `proofUndoDel` for one block
 target: in-place writes and `sort.Sort` are seen by later iterations (same backing array) -/
 def udTargets (numLeaves : U64) (totalRows : U8) (blockTarget : U64) (blockHash : H) (sibPos : U64) :
     Nat → Nat → HP H → HP H → HP H × HP H
@@ -288,7 +288,7 @@ def udTargets (numLeaves : U64) (totalRows : U8) (blockTarget : U64) (blockHash 
         udTargets numLeaves totalRows blockTarget blockHash sibPos fuel (i+1) tw np
       else udTargets numLeaves totalRows blockTarget blockHash sibPos fuel (i+1) tw np
 
-/-- the `for i, target := range proofWithPos.positions` loop of `undoDel` for one block target.
+/-- the `for i, target := range proofWithPos.positions` loop of `proofUndoDel` for one block target.
 `range` evaluates the slice once: `frozen` is the backing array the loop reads `target` from.
 Until the first match it is the array of `proofWithPos` itself; a match writes and sorts in
 place (still the same array) and then REASSIGNS `proofWithPos` to the freshly allocated merge
@@ -322,7 +322,7 @@ def udProofs (numLeaves : U64) (totalRows : U8) (blockTarget : U64) (blockHash :
             udProofs numLeaves totalRows blockTarget blockHash sibPos fuel (i+1) n frozen pw
         else udProofs numLeaves totalRows blockTarget blockHash sibPos fuel (i+1) n frozen pw
 
-/-- the outer `for i := blockTargetsWithHash.Len() - 1; i >= 0; i--` loop of `undoDel`
+/-- the outer `for i := blockTargetsWithHash.Len() - 1; i >= 0; i--` loop of `proofUndoDel`
 (given the block targets in reverse order) -/
 def udOuter (numLeaves : U64) (totalRows : U8) : HP H → HP H → HP H → HP H → Out (HP H × HP H × HP H)
   | [], tw, pw, np => .ok (tw, pw, np)
@@ -341,8 +341,8 @@ def udReplace : HP H → HP H → HP H → HP H
     | (bp, bh) :: _ => if bp = pos then udReplace rest before (acc ++ [(pos, bh)]) else udReplace rest before (acc ++ [(pos, h)])
     | [] => udReplace rest before (acc ++ [(pos, h)])
 
-/-- `(p *Proof) undoDel(blockTargets, blockHashes, cachedHashes, blockProof, numLeaves)` -/
-def undoDel (p : CProof H) (blockTargets : List U64) (blockHashes cachedHashes : List H)
+/-- `(p *Proof) proofUndoDel(blockTargets, blockHashes, cachedHashes, blockProof, numLeaves)` -/
+def proofUndoDel (p : CProof H) (blockTargets : List U64) (blockHashes cachedHashes : List H)
     (blockProofTargets : List U64) (blockProofHashes : List H) (numLeaves : U64) : Out (CProof H × List H) := do
   let totalRows := TreeRows numLeaves
   if blockTargets.isEmpty then pure (p, cachedHashes)
@@ -367,8 +367,8 @@ def undoDel (p : CProof H) (blockTargets : List U64) (blockHashes cachedHashes :
 def proofUndo (p : CProof H) (numAdds numLeaves : U64) (dels : List U64) (delHashes cachedHashes : List H)
     (toDestroy : List U64) (blockProofTargets : List U64) (blockProofHashes : List H) :
     Out (CProof H × List H) := do
-  let (p, cachedHashes) ← undoAdd p numAdds numLeaves cachedHashes toDestroy
-  undoDel p dels delHashes cachedHashes blockProofTargets blockProofHashes (numLeaves - numAdds)
+  let (p, cachedHashes) ← proofUndoAdd p numAdds numLeaves cachedHashes toDestroy
+  proofUndoDel p dels delHashes cachedHashes blockProofTargets blockProofHashes (numLeaves - numAdds)
 
 end
 end UtreexoVerif.Model
